@@ -46,7 +46,9 @@ VSCalls(form) == {[m |-> "variant", name |-> n, seq |-> s] : n \in {"A"}, s \in 
 ParamSets(form) == { << >>, << [name |-> "T", ty |-> <<Ty1(form)>>] >>, << [name |-> "T", ty |-> << >>], [name |-> "U", ty |-> <<TyPh(form)>>] >> }
 VSArgs(form) == { << >>, << [m |-> "variant_unit", name |-> "U", i |-> 3], [m |-> "variant", name |-> "A", seq |-> << [m |-> "index", i |-> 0] >>] >>,
                   << [m |-> "variant", name |-> "A", seq |-> << [m |-> "discriminant", d |-> 9] >>] >> }
-TBCalls(form) == {[m |-> "path", p |-> <<"m", "T">>]} \cup {[m |-> "type_params", ps |-> ps] : ps \in ParamSets(form)} \cup DocCalls(form)
+MacroCalls(form) == IF form = "M" THEN { [m |-> "type_params_macro", tys |-> <<"u8", "String">>], [m |-> "type_params_macro", tys |-> << >>],
+                                             [m |-> "named_type_params_macro", ps |-> << <<"T", "u8">>, <<"U", "String">> >>] } ELSE {}
+TBCalls(form) == {[m |-> "path", p |-> <<"m", "T">>]} \cup {[m |-> "type_params", ps |-> ps] : ps \in ParamSets(form)} \cup DocCalls(form) \cup MacroCalls(form)
                  \cup {[m |-> "composite", k |-> a[1], seq |-> a[2]] : a \in FSArgs(form)} \cup {[m |-> "variant", seq |-> s] : s \in VSArgs(form)}
 Alphabet(bk, form) == CASE bk = "FB" -> FBCalls(form) [] bk = "FS" -> FSCalls(form) [] bk = "VB" -> VBCalls(form)
                         [] bk = "VS" -> VSCalls(form) [] bk = "TB" -> TBCalls(form)
